@@ -17,6 +17,7 @@
 import SmoothProofs.C09Loop
 import SmoothProofs.C09Mono
 import SmoothProofs.C09Euclid
+import SmoothProofs.C09Linear
 
 open Scalar
 
@@ -195,5 +196,34 @@ example : exampleNLS.Spec :=
 
 example : StratInv (Strat.ceresInit (α := ℝ)) ∧ StratInv (Strat.disneyInit (α := ℝ)) :=
   ⟨stratInv_ceresInit, stratInv_disneyInit⟩
+
+
+/-! ### linear least squares: no step is ever rejected -/
+
+/-- On a LINEAR problem the trial residual is the linearised one (`‖f(x ⊕ dx)‖ = ‖r + J dx‖`), so `actu_red = pred_red`
+    and the gain ratio the loop computes is exactly `1` whenever the C++ quotient is finite (`r_n ≠ 0`, `pred_red ≠ 0`). -/
+theorem linear_problem_rho_one {o : Obs ℝ} (hlin : o.fxpn = o.linn) (hr : o.rn ≠ 0) (hp : predRed o ≠ 0) :
+    rhoOf o = .fin 1 := C09Linear.rho_one hlin hr hp
+
+/-- what the two built-in strategies do with `rho = 1`: both take the step; Ceres triples `Δ`
+    (`Δ / max(1/3, 1 − (2·1−1)³)`) and resets `m_reduce` to 2; Disney resets `Δ` to 1000. -/
+theorem linear_problem_strategy_updates (s : Strat ℝ) :
+    (s.stepAndUpdate (.fin 1)).2 = true
+    ∧ (s.kind = .ceres → (s.stepAndUpdate (.fin 1)).1.delta = 3 * s.delta ∧ (s.stepAndUpdate (.fin 1)).1.reduce = 2)
+    ∧ (s.kind = .disney → (s.stepAndUpdate (.fin 1)).1.delta = 1000) :=
+  ⟨C09Linear.builtin_takes_one s, fun hk => (C09Linear.ceres_on_one s hk).2, fun hk => (C09Linear.disney_on_one s hk).2⟩
+
+/-- `minimize` with a built-in strategy NEVER rejects an iteration on a linear problem, whatever `Δ`, the tolerances and
+    the point are: every iteration hands a new point to the callback (so `callback_count = 1 + iter`). -/
+theorem linear_problem_never_rejects (opts : Opts ℝ) {X : Type} (s : State X (Strat ℝ)) (o : Obs ℝ) (xp xa : X)
+    (hlin : o.fxpn = o.linn) : (advance builtinOps opts s o xp xa).2.accepted = true :=
+  C09Linear.linear_iteration_accepted opts s o xp xa hlin
+
+/-- non-vacuity: a linear step that halves the residual (`r_n = 2`, `‖r + J dx‖ = ‖f(xp)‖ = 1`) has `pred_red = 3/4 ≠ 0` -/
+example : let o : Obs ℝ := ⟨2, 1, 1, 1, 3⟩; o.fxpn = o.linn ∧ o.rn ≠ 0 ∧ predRed o ≠ 0 := by
+  refine ⟨rfl, by norm_num, ?_⟩
+  unfold predRed
+  rw [C09Mono.sq_real]
+  norm_num [Scalar.nat_real]
 
 end C09
